@@ -154,6 +154,7 @@ type FnExec struct {
 	callResults      map[string]specVar
 	callArgs         map[string][]specVar
 	calledCell       map[string]int
+	guardOrd         map[ssa.Instruction]int
 	panickingVar     *Term
 	recoveredCell    int
 	constGlobalsUsed []*constGlobal
